@@ -9,6 +9,7 @@ statham.  The documented deviations of statham are explicit switches:
                            may be omitted (evaluated both ways by `verdicts`)
 """
 import re
+import urllib.parse
 from fractions import Fraction
 
 UUID_RE = re.compile(
@@ -242,7 +243,8 @@ def resolve_pointer(root, pointer):
     # ("#/" is NOT the root: RFC 6901 reads it as the member whose name is the empty string)
     assert pointer.startswith("#/"), pointer
     node = root
-    for part in pointer[2:].split("/"):
+    # the pointer is the URI-fragment representation (RFC 6901 section 6): percent-decode, then evaluate
+    for part in urllib.parse.unquote(pointer[2:]).split("/"):
         part = part.replace("~1", "/").replace("~0", "~")
         if isinstance(node, list):
             node = node[int(part)]
